@@ -209,6 +209,12 @@ def main(argv=None):
   violations = []
   known_hits = []
   seen = set()
+  # a known finding is matched on the exact obligation name; the obligation may be refuted (sat) or, when its path
+  # condition carries quantified facts, merely unprovable (unknown)
+  known_names = set(e['obligation'] for e in known)
+  for o in [o for o in unknown if o['name'] in known_names]:
+    sat = sat + [o]
+  unknown = [o for o in unknown if o['name'] not in known_names]
   for o in sat:
     if o['name'] in seen:
       continue
